@@ -64,7 +64,7 @@ func checkC02(c *Ctx) {
 		var noQuorum, noVerify []string
 		nBoot := 0
 		for _, e := range exits {
-			facts := e.Facts
+			facts := aliasHelperResults(fl, e.Facts)
 			// bootstrap exemptions (stated in the code): the genesis QC and the view-0 TC
 			if v.name == "VerifyQuorumCert" && hasCmp(facts, "==", is(kQCHash+"p1)"), is(kGenesis)) {
 				nBoot++
@@ -229,7 +229,7 @@ func checkQCViewBinding(c *Ctx, rule string) {
 	var badGen, bad []string
 	nGen, nReg := 0, 0
 	for _, e := range exits {
-		facts := e.Facts
+		facts := aliasHelperResults(fl, e.Facts)
 		if hasCmp(facts, "==", is(kQCHash+"p1)"), is(kGenesis)) {
 			nGen++
 			if !(hasCmp(facts, "==", is(kQCView+"p1)"), is("c:0")) || hasCmp(facts, "==", is(kQCView+"p1)"), is(kBlockView+"hs.GetGenesis())"))) {
